@@ -3,7 +3,7 @@
 From Coq Require Import List ZArith NArith QArith Qcanon Bool Arith String.
 From Dimod Require Import Base.Util Model.Poly Model.Comb Model.Ser Model.ChkC11
   Model.Coo Model.NdArr Proofs.CombPack Proofs.SerFacts Proofs.CoeffSound Proofs.SerVec Proofs.CooFacts Proofs.NdArrFacts
-  Model.InfoSer Proofs.InfoSerFacts Model.CooNum Proofs.CooNumFacts.
+  Model.InfoSer Proofs.InfoSerFacts Model.CooNum Proofs.CooNumFacts Model.CooLex Proofs.CooLexFacts.
 Import ListNotations.
 
 (* ================================================================== *)
@@ -249,6 +249,29 @@ Theorem C11_fmt_f_shape :
   forall m : Z, List.length (f_frac (fmt_f m)) = 6%nat /\ Forall (fun d => (0 <= d <= 9)%Z) (f_frac (fmt_f m)).
 Proof. exact fmt_f_shape. Qed.
 Print Assumptions C11_fmt_f_shape.
+
+(* character level: the line regex of coo.py as a recogniser; every line dump prints
+   ('%d %d %f') is recognised and read back as the same (u, v, bias) *)
+Theorem C11_recognise_print_line :
+  forall u v m,
+    recognise None (print_line u v m) =
+    Some (mkMatch (dec u) (dec v) (m <? 0)%Z (dec (Z.to_N (Z.abs m / MICRO)))
+                  (string_of_chars (map digit_char (frac_digits (Z.abs m mod MICRO))))).
+Proof. exact recognise_print_line. Qed.
+Print Assumptions C11_recognise_print_line.
+
+Theorem C11_read_print_line : forall u v m, read_line None (print_line u v m) = Some (u, v, m).
+Proof. exact read_print_line. Qed.
+Print Assumptions C11_read_print_line.
+
+(* a regex allowing at most one integer digit instead of any number drops printed lines *)
+Theorem C11_one_digit_regex_refuted :
+  read_line (Some 1%nat) (print_line 3%N 7%N 10500000) = None /\
+  read_line None (print_line 3%N 7%N 10500000) = Some (3%N, 7%N, 10500000%Z) /\
+  read_line (Some 1%nat) (print_line 3%N 7%N (-9500000)) = Some (3%N, 7%N, (-9500000)%Z) /\
+  print_line 3%N 7%N 10500000 = "3 7 10.500000"%string.
+Proof. exact one_digit_regex_refuted. Qed.
+Print Assumptions C11_one_digit_regex_refuted.
 
 Example C11_ex_fmt_f :
   fmt_f (-100250000) = mkFText true "100" [2; 5; 0; 0; 0; 0]%Z /\ read_f (fmt_f (-100250000)) = Some (-100250000)%Z.
